@@ -106,7 +106,10 @@ def gen_case(rng, tier, index):
             "policy": rng.choice(["starve", "starve", "random", "pct"]),
             "policy_param": 0,
             # virtual seconds the async consumer spends per example
-            "pause": rng.choice([0.0, 0.0, 0.5, 5.0])}
+            "pause": rng.choice([0.0, 0.0, 0.5, 5.0]),
+            # many epochs' worth of examples from a repeating stream: a
+            # read-ahead that grows with what was consumed shows up
+            "k_long": rng.choice([0, 0, 0, 60, 150, 400])}
 
 
 def run_prim(case):
@@ -241,7 +244,11 @@ def run_iface(case):
                 "fp": fp}
         random.seed(case["seed"])
         total = sum(len(x["ids"]) for x in table)
+        long_take = 0
         k = case["k"] if case["repeat"] else min(case["k"], total)
+        if case.get("k_long") and case["repeat"] and iface != "rust":
+            k = case["k_long"]
+            long_take = 1
         if iface == "rust":
             k = case.get("k_epochs", 0) * total + case.get("k_extra", 1)
             k = max(1, k if case["repeat"] else min(k, total))
@@ -314,6 +321,7 @@ def run_iface(case):
         stats = {"iface_runs": 1, "shard_opens": len(env.opens),
                  "scheduler_decisions": rr.sched.steps if rr.sched else 0}
         probes = {"iface_" + iface: 1, "many_shards": int(n_shards >= 40),
+                  "long_take_from_repeating_stream": long_take,
                   "parallelism_equals_shard_count": boundary,
                   "slow_async_consumer": int(iface == "async" and
                                              bool(case.get("pause"))),
